@@ -177,6 +177,13 @@ def build_instance(spec, name="verif"):
             import copy
 
             JobShopInstance([list(job) for job in reversed(copy.deepcopy(inst.jobs)[1:])], name="a variant")
+            try:
+                # the library's own way of deriving such variants, where this version ships it
+                from job_shop_lib.generation._transformations import RemoveJobs
+            except ImportError:
+                RemoveJobs = None
+            if RemoveJobs is not None and len(inst.jobs) > 1:
+                RemoveJobs.remove_job(inst, 0)       # (deterministic; RemoveJobs.apply draws from the global RNG)
         return inst
     if route >= 3 or not spec:
         jobs = [[Operation(list(ms), d) for ms, d in job] for job in spec]
